@@ -182,14 +182,13 @@ def load_theory_cache(filename, username="master"):
                 if item.error is None:
                     theory.thy.unchecked_extend(item.get_extension())
 
-        # Use this theory to parse the content of current theory
-        cache['timestamp'] = timestamp
-        cache['depend_list'] = depend_list
-        cache['depend_timestamps'] = file_timestamps(depend_list)
-        cache['content'] = []
+        # Use this theory to parse the content of current theory. The cache
+        # is updated only after all items are parsed: a load interrupted by
+        # an error must not leave a partial theory marked as up to date.
+        content = []
         for index, item in enumerate(data['content']):
             item = items.parse_item(item)
-            cache['content'].append(item)
+            content.append(item)
             if item.error is None:
                 exts = item.get_extension()
                 theory.thy.unchecked_extend(exts)
@@ -199,6 +198,11 @@ def load_theory_cache(filename, username="master"):
                     else:
                         name = ext.name
                     item_index[username][(ext.ty, name)] = (filename, timestamp, index)
+
+        cache['timestamp'] = timestamp
+        cache['depend_list'] = depend_list
+        cache['depend_timestamps'] = file_timestamps(depend_list)
+        cache['content'] = content
 
     return cache
 
